@@ -1,6 +1,7 @@
 mod entry;
 mod gen;
 mod out;
+mod p_c02;
 mod p_c20;
 mod rng;
 mod tables;
@@ -18,6 +19,7 @@ fn main() {
             let (prop, tier, seed, dir) = (&args[2], &args[3], args[4].parse::<u64>().unwrap(), &args[5]);
             let mut out = out::Out::new(dir);
             match prop.as_str() {
+                "C02" => p_c02::run(&mut out, tier, seed),
                 "C20" => p_c20::run(&mut out, tier, seed),
                 _ => {
                     eprintln!("unknown property {prop}");
